@@ -33,15 +33,18 @@ Cases == {[kind |-> "route", pos |-> Pos2, links |-> LinksOf(ps, ChoiceF(ps, pt)
 (* the cycle family: four nodes on a line, the 4-cycle 1-2, 2-3, 3-4, 1-4 (the last one is the detour, optionally longer),
    EVERY assignment of speeds, EVERY order of the four AddLink calls, both directions: the configurations in which the
    bookkeeping of the fastest/slowest speed and the admissibility of the travel-time heuristic matter *)
-PosC(k) == IF k = 1 THEN << <<0, 0>>, <<10, 0>>, <<110, 0>>, <<120, 0>> >> ELSE << <<0, 0>>, <<30, 0>>, <<70, 0>>, <<100, 0>> >>
+PosC(k) == CASE k = 1 -> << <<0, 0>>, <<10, 0>>, <<110, 0>>, <<120, 0>> >>
+             [] k = 2 -> << <<0, 0>>, <<30, 0>>, <<70, 0>>, <<100, 0>> >>
+             [] k = 3 -> << <<0, 0>>, <<1000, 0>>, <<11000, 0>>, <<12000, 0>> >>   \* near tie: the detour is longer by 2 in 12000 (squares stay below 2^31)
+QPt(k, i) == IF i = 1 THEN <<1, 1>> ELSE <<PosC(k)[4][1] - 1, 1>>
 CycPairs == << <<1, 2>>, <<2, 3>>, <<3, 4>>, <<1, 4>> >>
 Perm4 == {q \in [1..4 -> 1..4] : \A a \in 1..4, b \in 1..4 : a # b => q[a] # q[b]}
 CycLinks(k, sp, ex, q) == [i \in 1..4 |-> LET p == CycPairs[q[i]] IN
                              [u |-> p[1], v |-> p[2], len |-> (PosC(k)[p[2]][1] - PosC(k)[p[1]][1]) + (IF q[i] = 4 THEN ex ELSE 0),
                               speed |-> sp[q[i]], extra |-> IF q[i] = 4 THEN ex ELSE 0]]
-CycleCases == {[kind |-> "route", pos |-> PosC(k), links |-> CycLinks(k, sp, ex, q), opt |-> o, from |-> fr, to |-> tt] :
-                  k \in {1, 2}, sp \in [1..4 -> {1, 2, 4}], ex \in {0, 2, 40}, q \in Perm4, o \in {"time", "distance"},
-                  fr \in {<<1, 1>>, <<119, 1>>}, tt \in {<<1, 1>>, <<119, 1>>}}
+CycleCases == {[kind |-> "route", pos |-> PosC(kx[1]), links |-> CycLinks(kx[1], sp, kx[2], q), opt |-> o, from |-> QPt(kx[1], fr), to |-> QPt(kx[1], tt)] :
+                  kx \in ({1, 2} \X {0, 2, 40}) \cup {<<3, 2>>}, sp \in [1..4 -> {1, 2, 4}], q \in Perm4, o \in {"time", "distance"},
+                  fr \in {1, 4}, tt \in {1, 4}}
 CycleThin == {x \in CycleCases : x.from # x.to /\ (x.opt = "time" \/ x.links[1].speed = 4)
                                  /\ (x.links[1].speed + 3 * x.links[2].speed + 5 * x.links[3].len + 7 * x.links[4].u + (IF x.from[1] = 1 THEN 0 ELSE 1)) % MC = 0}
 GenInit == /\ net = 0 /\ opt = 0 /\ s = 0 /\ t = 0 /\ open = {} /\ closed = {} /\ g = 0 /\ phase = "gen"
